@@ -79,7 +79,7 @@ def check(tier, seed):
         ties = 0
         batch = []
         for _ in range(150 if tier == 'quick' else 6000):
-            kind = rng.choice(['noise', 'one_ubx', 'two_ubx', 'two_nmea', 'mixed', 'bad_ubx', 'three', 'late', 'ubx_filler', 'silence', 'near_nmea', 'near_nmea'])
+            kind = rng.choice(['noise', 'one_ubx', 'two_ubx', 'two_nmea', 'mixed', 'bad_ubx', 'three', 'late', 'ubx_filler', 'silence', 'near_nmea', 'near_nmea', 'bad_then_two', 'bad_then_two'])
             fr = lambda: G.frame(*rng.choice(G.CIDS), G.rand_payload(rng, rng.choice([0, 2, 8, 30])))
             nm = lambda good=True: G.nmea(bytes(rng.choice(b'GPRMC,0123456789.AN') for _ in range(rng.randrange(3, 30))), good=good)
             junk = lambda: G.rand_junk(rng)[0]
@@ -106,6 +106,12 @@ def check(tier, seed):
                     x.insert(rng.randrange(1, len(x) - 5), rng.choice([0x80, 0xb5, 0xff, 0xc3, rng.randrange(128, 256), 0x01]))
                     return bytes(x)
                 s = hit(nm()) + hit(nm()) + rng.choice([b'', hit(nm())])
+            elif kind == 'bad_then_two':
+                def bad():
+                    b = bytearray(fr())
+                    b[-1] ^= 0x5a
+                    return bytes(b)
+                s = b''.join(bad() for _ in range(rng.choice([3, 4, 6]))) + (nm() + nm() if rng.random() < 0.5 else fr() + fr())
             elif kind == 'three':
                 s = nm() + fr() + nm() + fr()
             elif kind == 'late':
@@ -146,7 +152,7 @@ def check(tier, seed):
             if r not in (True, None, False):
                 res.violation('scan() returned an unexpected value', {'property': 'C18', 'input': desc, 'result': impl}, 'c18-type')
             total = sum(dt for _, dt in events)
-            if kind in ('two_ubx', 'two_nmea', 'ubx_filler', 'three') and total + 1 < interval and r is not True:
+            if kind in ('two_ubx', 'two_nmea', 'ubx_filler', 'three', 'bad_then_two') and total + 1 < interval and r is not True:
                 res.violation('two well-formed frames of one protocol arrived within the interval but scan() did not return True', {'property': 'C18', 'input': desc, 'result': impl}, 'c18-live|' + kind)
             if r is not True and t > interval + max([idle] + [dt for _, dt in events]):
                 res.violation('scan() returned later than interval + one read timeout', {'property': 'C18', 'input': desc, 'result': impl}, 'c18-time')
